@@ -160,9 +160,16 @@ class World:
             v = rng.choice([b'5', b'1.5', b'"SECoP"', b'"discover"', b'null', b'true', b'[1,2]', b'["SECoP"]', b'["SECoP", "discover"]',
                             b'[{"SECoP": "discover"}]', b'0', b'""', b'[]'])
             return 'json-non-object', v, False
-        if q < 0.72:
+        if q < 0.66:
             v = rng.choice([b'\xff\xfe', b'{"SECoP": "disc\xff"}', b'\x80', b'\xc3', b'{"SECoP": "discover"}\xe4'])
             return 'invalid-utf8', v, False
+        if q < 0.72:
+            # the request text in another encoding is not a SECoP discovery request (JSON in UTF-8, no byte order mark)
+            req = '{"SECoP": "discover"}'
+            v = rng.choice([req.encode('utf-16'), req.encode('utf-16-le'), req.encode('utf-16-be'), req.encode('utf-32'),
+                            req.encode('utf-32-le'), req.encode('utf-32-be'), b'\xef\xbb\xbf' + req.encode(),
+                            b'{"SECoP": "discover", "x": "\xed\xa0\x80"}'])
+            return 'other-encoding', v, False
         if q < 0.8:
             return 'empty', b'', False
         if q < 0.9:
